@@ -254,7 +254,10 @@ pub fn parse_root_adt<R: Read + Seek>(
         if let Some(chunks) = discovery.get_chunks(ChunkId::MTXF) {
             if let Some(chunk_info) = chunks.first() {
                 reader.seek(SeekFrom::Start(chunk_info.offset + 8))?;
-                Some(MtxfChunk::read_le(reader)?)
+                // Read chunk data into buffer to prevent until_eof from reading past chunk boundary
+                let mut chunk_data = vec![0u8; chunk_info.size as usize];
+                reader.read_exact(&mut chunk_data)?;
+                Some(MtxfChunk::read_le(&mut std::io::Cursor::new(chunk_data))?)
             } else {
                 None
             }
@@ -286,7 +289,10 @@ pub fn parse_root_adt<R: Read + Seek>(
         if let Some(chunks) = discovery.get_chunks(ChunkId::MTXP) {
             if let Some(chunk_info) = chunks.first() {
                 reader.seek(SeekFrom::Start(chunk_info.offset + 8))?;
-                Some(MtxpChunk::read_le(reader)?)
+                // Read chunk data into buffer to prevent until_eof from reading past chunk boundary
+                let mut chunk_data = vec![0u8; chunk_info.size as usize];
+                reader.read_exact(&mut chunk_data)?;
+                Some(MtxpChunk::read_le(&mut std::io::Cursor::new(chunk_data))?)
             } else {
                 None
             }
@@ -302,7 +308,10 @@ pub fn parse_root_adt<R: Read + Seek>(
         if let Some(chunks) = discovery.get_chunks(ChunkId::MBMH) {
             if let Some(chunk_info) = chunks.first() {
                 reader.seek(SeekFrom::Start(chunk_info.offset + 8))?;
-                Some(MbmhChunk::read_le(reader)?)
+                // Read chunk data into buffer to prevent until_eof from reading past chunk boundary
+                let mut chunk_data = vec![0u8; chunk_info.size as usize];
+                reader.read_exact(&mut chunk_data)?;
+                Some(MbmhChunk::read_le(&mut std::io::Cursor::new(chunk_data))?)
             } else {
                 None
             }
@@ -318,7 +327,10 @@ pub fn parse_root_adt<R: Read + Seek>(
         if let Some(chunks) = discovery.get_chunks(ChunkId::MBBB) {
             if let Some(chunk_info) = chunks.first() {
                 reader.seek(SeekFrom::Start(chunk_info.offset + 8))?;
-                Some(MbbbChunk::read_le(reader)?)
+                // Read chunk data into buffer to prevent until_eof from reading past chunk boundary
+                let mut chunk_data = vec![0u8; chunk_info.size as usize];
+                reader.read_exact(&mut chunk_data)?;
+                Some(MbbbChunk::read_le(&mut std::io::Cursor::new(chunk_data))?)
             } else {
                 None
             }
@@ -334,7 +346,10 @@ pub fn parse_root_adt<R: Read + Seek>(
         if let Some(chunks) = discovery.get_chunks(ChunkId::MBNV) {
             if let Some(chunk_info) = chunks.first() {
                 reader.seek(SeekFrom::Start(chunk_info.offset + 8))?;
-                Some(MbnvChunk::read_le(reader)?)
+                // Read chunk data into buffer to prevent until_eof from reading past chunk boundary
+                let mut chunk_data = vec![0u8; chunk_info.size as usize];
+                reader.read_exact(&mut chunk_data)?;
+                Some(MbnvChunk::read_le(&mut std::io::Cursor::new(chunk_data))?)
             } else {
                 None
             }
@@ -350,7 +365,10 @@ pub fn parse_root_adt<R: Read + Seek>(
         if let Some(chunks) = discovery.get_chunks(ChunkId::MBMI) {
             if let Some(chunk_info) = chunks.first() {
                 reader.seek(SeekFrom::Start(chunk_info.offset + 8))?;
-                Some(MbmiChunk::read_le(reader)?)
+                // Read chunk data into buffer to prevent until_eof from reading past chunk boundary
+                let mut chunk_data = vec![0u8; chunk_info.size as usize];
+                reader.read_exact(&mut chunk_data)?;
+                Some(MbmiChunk::read_le(&mut std::io::Cursor::new(chunk_data))?)
             } else {
                 None
             }
